@@ -9,10 +9,10 @@ CLAIM = ('Decides statically, on the AArch64 configuration: the back-end and its
          'agree with the interpreter; CBRANCH constants and the decoded tst mask are right for all 16 shifts and the jump target is the last writer of the branch register; marks are taken after the '
          'instruction\'s last word; scratchpad level masks (decoded logical immediates) and their selection conditions equal the decoder\'s; every v1/v2 patch of the persistent code buffer is undone by the other arm; the SuperscalarHash '
          'emitter handles all 14 kinds; per-instruction code + literals fit the template\'s reserve; RW/RX/RWX helpers and mapping sizes are consistent; the two immediate helpers leave sext64(imm32) resp. x{src} + sext64(imm32) in the destination register for every imm32 and both states of the literal table (known-bits abstract execution with the architectural meaning of movz/movn/movk/add/smov/umov).'
-         ' The meaning of the emitted words is decided for the ten integer register-form instructions (A64-HSEM: 3640 cases, rotation counts 0..63, 16 boundary immediates, literal table free / exhausted) and for the SuperscalarHash emitter except IMUL_RCP (A64-SS-HSEM), by symbolic execution on a register file of terms; every template patch site is rewritten with a path-independent number of words (A64-PATCHLEN) and no generator member survives a generate* call (GEN-RESET). The memory-form, floating-point, store and branch handlers and the hand-written runtime remain covered by the structural rules only.'
+         ' The meaning of the emitted words is decided for the ten integer register-form instructions (A64-HSEM: 3640 cases, rotation counts 0..63, 16 boundary immediates, literal table free / exhausted) and for the SuperscalarHash emitter except IMUL_RCP (A64-SS-HSEM), by symbolic execution on a register file of terms; every template patch site is rewritten with a path-independent number of words (A64-PATCHLEN) and no generator member survives a generate* call (GEN-RESET). The floating-point handlers remain covered by the structural rules only.'
          ' The six memory-form integer instructions and ISTORE are validated the same way with a symbolic scratchpad: the emitted code must access exactly scratchpad + ((src + sext(imm32)) & mask) with the L1 / L2 / L3 mask the specification selects (src == dst: imm32 & L3 mask), the and-immediates being decoded by the A64 logical-immediate rules (A64-MEM-HSEM); marks are the current code position (LW-VALUE).'
          ' A64 CBRANCH words: the add sequence leaves dst + the immediate of 5.4.3, `tst` uses the decoded mask 0xFF << (mod.cond + 8) on the same register, and `b.eq` lands exactly on the offset recorded in reg_changed_offset for the register (A64-CBR-HSEM, 1848 cases).')
-LEVEL_NOTE = 'Trusted: clang cross parse with host libstdc++ headers plus two stub headers; A64 instruction semantics; the hand-written runtime jit_compiler_a64_static.S (only label distances are read).'
+LEVEL_NOTE = 'Trusted: clang cross parse with host libstdc++ headers plus two stub headers; the clang assembler and llvm-objdump for jit_compiler_a64_static.S; A64 instruction semantics as written into the checker (integer, logical-immediate, load / store pair subset); value semantics of the hand-written runtime beyond the fragments listed in the claim.'
 EXPLANATION = ('PORT-TYPECHECK(K2), TAB-OPC, LW-SIB, SPLIT-SIB, RCP-NOOP, CBR-BITS/TARGET, LW-POS, V2-SYM, MEM-JITMASK, IMM-NEG, SS-EXH, CG-SIZE-A64, WX-ARCH, A64-EMASK, A64-IMMHELP.'
          ' A64-HSEM, A64-SS-HSEM, A64-PATCHLEN, GEN-RESET.'
          ' A64-MEM-HSEM, LW-VALUE.'
